@@ -68,6 +68,56 @@ def mutate(unit: bytes, rnd: random.Random) -> bytes:
     return bytes(b)
 
 
+READER_CONTROL_OID = "1.2.840.99999.7"
+_RC: t.Dict[int, t.Any] = {}
+
+
+def reader_control() -> t.Any:
+    """An application control that parses its value with the library's own ASN1Reader - the way PagedResultControl does
+    and the way the documentation suggests.  A truncated value makes that reader raise NotEnougData INSIDE a complete
+    message: the session must answer with ProtocolError, not wait for more octets."""
+    import dataclasses
+
+    import sansldap as s
+    from sansldap.asn1 import ASN1Reader
+
+    if id(s) not in _RC:
+        @dataclasses.dataclass(frozen=True)
+        class ReaderControl(s.LDAPControl):
+            control_type: str = dataclasses.field(init=False, repr=False, default=READER_CONTROL_OID)
+            value: t.Optional[bytes] = dataclasses.field(init=False, repr=False, default=None)
+            size: int = 0
+            cookie: bytes = b""
+
+            def get_value(self, options: t.Any) -> t.Optional[bytes]:
+                from sansldap.asn1 import ASN1Writer
+
+                w = ASN1Writer()
+                with w.push_sequence() as q:
+                    q.write_integer(self.size)
+                    q.write_octet_string(self.cookie)
+                return bytes(w.get_data())
+
+            @classmethod
+            def unpack(cls, control_type: str, critical: bool, value: t.Optional[bytes], options: t.Any) -> t.Any:
+                r = ASN1Reader(value or b"").read_sequence()
+                return cls(critical=critical, size=r.read_integer(), cookie=bytes(r.read_octet_string()))
+
+        _RC[id(s)] = ReaderControl
+    return _RC[id(s)]
+
+
+def reader_control_unit(rnd: random.Random, mid: int, role: str) -> t.Tuple[bytes, t.Dict[str, t.Any]]:
+    """A complete, well-framed message that carries the registered control with a truncated / absent / odd value."""
+    def tlv(tag: int, c: bytes) -> bytes:
+        return bytes([tag]) + (bytes([len(c)]) if len(c) < 128 else bytes([0x81, len(c)])) + c
+
+    val = rnd.choice((b"\x30\x05\x02\x01", b"\x30", b"", b"\x30\x03\x02\x01\x01", b"\x30\x06\x02\x01\x01\x04\x05ab", b"\x02\x01"))
+    ctl = tlv(0x30, tlv(4, READER_CONTROL_OID.encode()) + (tlv(4, val) if rnd.random() < 0.85 else b""))
+    op = tlv(0x77, tlv(0x80, b"1.2.3")) if role == "server" else tlv(0x78, tlv(10, b"\x00") + tlv(4, b"") + tlv(4, b""))
+    return tlv(0x30, tlv(2, bytes([mid % 120 + 1])) + op + tlv(0xA0, ctl)), {"k": "garbage", "id": 0, "valid": False, "dig": ""}
+
+
 class Recorder:
     def __init__(self, rnd: random.Random):
         self.rnd = rnd
@@ -80,6 +130,9 @@ class Recorder:
         self.tid += 1
         self.role = role
         self.s = sess.new_session(role)
+        self.has_reader_control = self.rnd.random() < 0.5
+        if self.has_reader_control:
+            self.s.register_control(reader_control())
         self.events.append({"ev": "new", "role": role, "tid": self.tid, "family": family})
 
     # -- observation of the abstract state
@@ -170,7 +223,9 @@ def unit_of(msg: t.Any, rnd: random.Random, alt: bool = True) -> t.Tuple[bytes, 
     return b, {"k": proj.kind_of(msg), "id": msg.message_id, "valid": True, "dig": dig(msg)}
 
 
-def bad_unit(rnd: random.Random, base: t.Optional[bytes]) -> t.Tuple[bytes, t.Dict[str, t.Any]]:
+def bad_unit(rnd: random.Random, base: t.Optional[bytes], role: str = "") -> t.Tuple[bytes, t.Dict[str, t.Any]]:
+    if role and rnd.random() < 0.12:
+        return reader_control_unit(rnd, rnd.randrange(1, 50), role)
     if base is not None and rnd.random() < 0.6:
         b = mutate(base, rnd)
     elif rnd.random() < 0.15:
@@ -273,9 +328,9 @@ def scenario_stream(rec: Recorder, role: str, rnd: random.Random, garbage_p: flo
         units = [u if len(u[0]) <= 3000 else small_unit(u[1]["k"], u[1]["id"], rnd) for u in units]
         for j in range(len(units)):
             if rnd.random() < garbage_p:
-                units[j] = bad_unit(rnd, units[j][0])
+                units[j] = bad_unit(rnd, units[j][0], role)
         if rnd.random() < garbage_p:
-            units.insert(rnd.randrange(len(units) + 1), bad_unit(rnd, None))
+            units.insert(rnd.randrange(len(units) + 1), bad_unit(rnd, None, role))
     if not units:
         return
     rec.stream([u[1] for u in units])
@@ -413,6 +468,43 @@ def scenario_large_then_split(rec: Recorder, role: str, rnd: random.Random) -> N
     for a, z in zip([0] + cuts, cuts + [len(stream)]):
         if rec.recv(stream[a:z]) != "ok":
             break
+
+
+def scenario_regcontrol(rec: Recorder, role: str, rnd: random.Random) -> None:
+    """A session with a registered application control receives well-formed units and one complete unit whose control
+    value is cut short: a message or a ProtocolError must come out, never silence."""
+    rec.new(role, "registered-control")
+    if not rec.has_reader_control:
+        rec.s.register_control(reader_control())
+        rec.has_reader_control = True
+    units: t.List[t.Tuple[bytes, t.Dict[str, t.Any]]] = []
+    mid = 1
+    if role == "client":
+        e = rec.call({"op": "send", "k": "extReq"})
+        rec.drain(None)
+        if e["res"] != "ok":
+            return
+        mid = e["ret"]
+    else:
+        for j in range(rnd.randrange(0, 3)):
+            units.append(small_unit(rnd.choice(("searchReq", "extReq")), j + 1, rnd, limit=300))
+        mid = len(units) + 1
+    bad, meta = reader_control_unit(rnd, mid, role)
+    if role == "client":   # the response must carry the outstanding id, otherwise the state machine rejects it anyway
+        bad = bad.replace(b"\x02\x01" + bytes([mid % 120 + 1]), b"\x02\x01" + bytes([mid]), 1)
+    units.append((bad, meta))
+    if role == "server" and rnd.random() < 0.6:
+        units.append(small_unit("extReq", mid + 1, rnd, limit=300))
+    rec.stream([u[1] for u in units])
+    stream = b"".join(u[0] for u in units)
+    bounds = [0]
+    for u in units:
+        bounds.append(bounds[-1] + len(u[0]))
+    for p_ in chunkings(stream, bounds[:-1], rnd, rnd.choice((0, 0, 2, 5))):
+        if rec.recv(p_) != "ok":
+            break
+    if rec.s.state.name != "CLOSED":
+        rec.recv(b"")
 
 
 def ad_notice(rnd: random.Random) -> t.Tuple[bytes, t.Dict[str, t.Any]]:
@@ -630,6 +722,8 @@ def drive(seed: int, n_traces: int) -> t.List[t.Dict[str, t.Any]]:
             scenario_bulk(rec, role, rnd)
         if j % 40 == 33:
             scenario_large_then_split(rec, role, rnd)
+        if j % 10 == 3:
+            scenario_regcontrol(rec, role, rnd)
         if u < 4:
             scenario_stream(rec, role, rnd, garbage_p=0.0, violate_p=0.03)
         elif u < 6:
